@@ -41,6 +41,7 @@ class SchemaGen:
         self.defined = []     # (full name, kind)
         self.open_records = []  # full names of records being defined (for recursion)
         self.defs = {}        # full name -> (json definition, namespace context inside it)
+        self.fulls = set()
 
     def fresh(self, prefix):
         self.n += 1
@@ -66,6 +67,28 @@ class SchemaGen:
         """returns (json fragment with name/namespace, resulting namespace)"""
         r = self.r
         n = self.fresh(base)
+        # sometimes reuse the simple name of an earlier type in ANOTHER namespace (distinct full names
+        # that share a simple name)
+        used = getattr(self, 'used_names', None)
+        if used is None:
+            used = self.used_names = []
+        if self.o.namespaces and used and r.random() < 0.12:
+            simple, old_ns = r.choice(used)
+            cands = [x for x in NAMESPACES if x and x != old_ns and (x + '.' + simple) not in self.fulls]
+            if cands:
+                ns = r.choice(cands)
+                self.fulls.add(ns + '.' + simple)
+                if r.random() < 0.5:
+                    return {'name': simple, 'namespace': ns}, ns
+                return {'name': ns + '.' + simple}, ns
+        frag, ns2 = self._name_obj(n, ns_ctx)
+        full = self.full(frag, ns2 if ('namespace' in frag or '.' in frag['name']) else ns_ctx)
+        self.fulls.add(full)
+        used.append((frag['name'].rpartition('.')[2], full.rpartition('.')[0] or None))
+        return frag, ns2
+
+    def _name_obj(self, n, ns_ctx):
+        r = self.r
         if not self.o.namespaces:
             return {'name': n}, ns_ctx
         c = r.random()
